@@ -5,6 +5,7 @@ import (
 	"fmt"
 )
 
+//go:norace
 func init() { Runners["C06"] = runC06 }
 
 // crashCtx tracks what the harness cannot know after a crash.
@@ -18,6 +19,8 @@ type crashCtx struct {
 // instance are abandoned, the disk survives), reopens the database on the
 // crash image and starts the wallet again. crashPlan[i] is the commit index at
 // which incarnation i+2 dies (0 = never).
+//
+//go:norace
 func (w *World) RecoverCrash(inst *Instance, nextCrash func(incarnation int) int) error {
 	for tries := 0; tries < 6; tries++ {
 		inst.Crash()
@@ -44,6 +47,8 @@ func (w *World) RecoverCrash(inst *Instance, nextCrash func(incarnation int) int
 // CheckInstance is the end-of-history oracle shared by the crash and fault
 // properties: fair quiescence, followers alive, tasks finished, wallet set as
 // acknowledged, every wallet's observation equal to the ledger model.
+//
+//go:norace
 func (w *World) CheckInstance(inst *Instance, class string, cc *crashCtx) {
 	pending := len(inst.Pending)
 	n, ok := w.S.Quiesce(6000 + 300*pending)
@@ -137,6 +142,8 @@ func (w *World) CheckInstance(inst *Instance, class string, cc *crashCtx) {
 // runHistory executes a generated history of chain and wallet operations on
 // inst, handling injected crashes. It is shared by C06 (crash enumeration) and
 // C18 (storage-fault enumeration).
+//
+//go:norace
 func runHistory(w *World, inst *Instance, p map[string]int, class string, cc *crashCtx, nextCrash func(int) int) {
 	t := w.Plan
 	nOps := 3 + t.Int(param(p, "ops", 18))
@@ -235,6 +242,7 @@ func runHistory(w *World, inst *Instance, p map[string]int, class string, cc *cr
 	}
 }
 
+//go:norace
 func liveWallets(inst *Instance) []string {
 	var out []string
 	for _, id := range inst.SortedWalletIDs() {
@@ -251,6 +259,8 @@ func liveWallets(inst *Instance) []string {
 // the wallet process dies (the driver enumerates every k of the fault-free
 // twin). The oracle is the never-stopped behaviour: at quiescence the wallet
 // set is what was acknowledged and every wallet equals the ledger model.
+//
+//go:norace
 func runC06(w *World, p map[string]int) {
 	t := w.Plan
 	w.SetKnobs(drawKnobs(w))
